@@ -146,7 +146,7 @@ B("C17", "js-not-symmetric", (JS, """        + compute_clipped_negative_log_like
             target_distribution, measured_distribution, distance_measure_parameters
         )"""), rule="C17-D3")
 B("C17", "nll-consumes-epsilon", (NLL, 'epsilon = distance_measure_parameters.get("epsilon", 1e-9)', 'epsilon = distance_measure_parameters.pop("epsilon", 1e-9)'), rule="C17-D2")
-B("C17", "sorted-projection", (DIST, 'new_key = "".join(str(key[i]) for i in active_qubits)', 'new_key = "".join(str(key[i]) for i in sorted(active_qubits))'), rule="C17-D4")
+B("C17", "sorted-projection", (DIST, 'new_key = tuple(key[i] for i in active_qubits)', 'new_key = tuple(key[i] for i in sorted(active_qubits))'), rule="C17-D4")
 B("C17", "overwrite-instead-of-sum", (DIST, """            new_counts[new_key] = self.distribution_dict[key] + new_counts.get(
                 new_key, 0
             )""", "            new_counts[new_key] = self.distribution_dict[key]"), rule="C17-D4")
@@ -1282,3 +1282,5 @@ B("C12", "msb-off-by-one", ("wavefunction.py", "    return len(bin_string) - 2",
 T("C12", "twin-dicke-amplitude-from-len", ("wavefunction.py", "            amplitude = 1 / np.sqrt(counter)", "            amplitude = 1 / np.sqrt(len(indices))"))
 T("C12", "twin-dicke-stop-test-gt", ("wavefunction.py", "                if not _most_significant_set_bit(current_value) <= n_qubits:", "                if _most_significant_set_bit(current_value) > n_qubits:"))
 T("C12", "twin-msb-bit-length", ("wavefunction.py", "    bin_string = bin(val)\n    return len(bin_string) - 2", "    return val.bit_length()"))
+B("C17", "projected-key-as-digit-string", ("distributions/_measurement_outcome_distribution.py", "            new_key = tuple(key[i] for i in active_qubits)", '            new_key = "".join(str(key[i]) for i in active_qubits)'), rule="C17-D4")
+B("C17", "projected-key-comma-joined", ("distributions/_measurement_outcome_distribution.py", "            new_key = tuple(key[i] for i in active_qubits)", '            new_key = ",".join(str(key[i]) for i in active_qubits)'), rule="C17-D4")
